@@ -12,7 +12,47 @@ import (
 
 // whoMayCall checks that every library call site whose callee satisfies match
 // lies in a function accepted by allowed. Each site is one obligation.
-func (c *Ctx) whoMayCall(rule, what string, match func(cs CallSite) bool, allowed func(f *Func) bool, allowedDesc string) int {
+// callersOf: static callers (library functions and literals) per function key.
+func (c *Ctx) callersOf() map[string][]*Func {
+	if c.cache == nil {
+		c.cache = map[string]any{}
+	}
+	if v, ok := c.cache["callers"]; ok {
+		return v.(map[string][]*Func)
+	}
+	m := map[string][]*Func{}
+	for _, cs := range c.P.allCalls(false) {
+		if cs.Callee.Key != "" && !cs.Callee.Iface {
+			m[cs.Callee.Key] = appendUnique(m[cs.Callee.Key], cs.In)
+		}
+	}
+	c.cache["callers"] = m
+	return m
+}
+
+// allowedThroughCallers: f is allowed, or f is a helper all of whose callers are (so that extracting a helper
+// out of an allowed function does not change the verdict).
+func (c *Ctx) allowedThroughCallers(f *Func, allowed func(f *Func) bool, depth int) bool {
+	if allowed(f) {
+		return true
+	}
+	if depth > 3 || f.Obj == nil || c.escapes(f) != nil {
+		return false
+	}
+	callers := c.callersOf()[f.Key]
+	if len(callers) == 0 {
+		return false
+	}
+	for _, g := range callers {
+		if g == f || !c.allowedThroughCallers(g, allowed, depth+1) {
+			return false
+		}
+	}
+	return true
+}
+
+func (c *Ctx) whoMayCall(rule, what string, match func(cs CallSite) bool, allowed0 func(f *Func) bool, allowedDesc string) int {
+	allowed := func(f *Func) bool { return c.allowedThroughCallers(f, allowed0, 0) }
 	n := 0
 	for _, cs := range c.P.allCalls(false) {
 		if !match(cs) {
